@@ -780,20 +780,38 @@ def description_variant(
     sites: Sites, rng, payload: str, inner: Sequence[str], trailing: Optional[str]
 ) -> Variant:
     names = Names(sites)
-    replacements: Dict[int, str] = {}
     constraint_sites = [i for i, s in enumerate(sites.sites) if s.kind in SUPPORTS_CONSTRAINTS]
-    known = [f"C-{k + 1}" for k in range(len(constraint_sites))]
-    counter = 0
-    for i, site in enumerate(sites.sites):
-        if not site.kind.startswith("doc-"):
-            continue
-        counter += 1
-        cid = known[constraint_sites.index(i)] if i in constraint_sites else None
-        text = build_doc(
-            site, names, rng, counter, payload=payload, inner=list(inner), trailing=trailing,
-            constraint_id=cid, known_constraints=known, shape=counter,
-        )
-        replacements[i] = py_literal(text)
+    all_ids = [f"C-{k + 1}" for k in range(len(constraint_sites))]
+
+    def build_all(known: Sequence[str]) -> Dict[int, str]:
+        texts: Dict[int, str] = {}
+        counter = 0
+        for i, site in enumerate(sites.sites):
+            if not site.kind.startswith("doc-"):
+                continue
+            counter += 1
+            cid = all_ids[constraint_sites.index(i)] if i in constraint_sites else None
+            rotated = list(inner)
+            if rotated:
+                shift = counter % len(rotated)
+                rotated = rotated[shift:] + rotated[:shift]
+            texts[i] = build_doc(
+                site, names, rng, counter, payload=payload, inner=rotated, trailing=trailing,
+                constraint_id=cid, known_constraints=known, shape=counter,
+            )
+        return texts
+
+    # Only constraints that a description really defines may be referenced: build once to
+    # learn which ones are defined, then again (same random choices) with references.
+    state = rng.getstate()
+    first = build_all(())
+    defined = [
+        cid for cid, i in zip(all_ids, constraint_sites)
+        if f":constraint {cid}:" in first.get(i, "")
+    ]
+    rng.setstate(state)
+    texts = build_all(defined)
+    replacements = {i: py_literal(text) for i, text in texts.items()}
     variant = Variant(
         sites.render(replacements), payload,
         "description-trailing" if trailing else "description-inner",
